@@ -136,8 +136,14 @@ def run_case(case, chooser):
                     st_["excluded"] += 1         # receiver: notify -> dispatch made atomic (finding F4 excluded)
                     return
                 if getattr(conn._recv_event._lock, "owner", None) is me and me is not None:
-                    st_["excluded"] += 1         # nobody is preempted while holding the condition's lock, so the
-                    return                       # waiter's atomic section below never blocks on it
+                    # nobody is preempted while holding the condition's lock, so that a waiter's atomic section below never
+                    # blocks on it - except a single caller that has already failed to take the receive lock and is about to
+                    # wait (with one caller no other waiter exists whose atomic section could be split by that)
+                    if not (ncallers == 1 and me.name in byname and tag and tag[0] == "line" and tag[1] == "serve"
+                            and lock_line is not None and tag[2] > lock_line):
+                        st_["excluded"] += 1
+                        return
+                    return real_yield(tag)
                 if me is not None and me.name in byname and tag and tag[0] == "line":
                     # waiter: readiness test in wait() -> try-acquire of the receive lock in serve() made atomic (F4b)
                     if tag[1] == "wait" or (tag[1] == "serve" and lock_line is not None and tag[2] <= lock_line):
@@ -298,6 +304,9 @@ def dfs(base, bound, rec, limit=None):
         n += 1
         for f in rec.triage(fails):
             rec.violation(f)
+        if rec.failures and n > 50:          # a broken tree: the verdict is known, do not enumerate every failing schedule
+            rec.count("dfs stopped early after violations")
+            break
         if limit and n >= limit:
             break
         prefix = ch.next_prefix()
